@@ -117,10 +117,8 @@ void NifFile::LinkGeomData() {
 	for (auto& block : blocks) {
 		if (auto geom = dynamic_cast<NiGeometry*>(block.get())) {
 			// NiGeometry refers to geometry data within the nif file
-			auto geomData = hdr.GetBlock(geom->DataRef());
-			if (geomData)
-				geom->SetGeomData(geomData);
-			
+			// (a data block that was deleted or replaced must not stay cached)
+			geom->SetGeomData(hdr.GetBlock(geom->DataRef()));
 		}
 		// NOTE: BSGeometry is it's own geometry data... need explicit linking here?
 	}
